@@ -57,3 +57,57 @@ theorem commented_insertion_rendered (cm : CMap) (p : Para) (pre post : List Nod
   simpa using hne
 
 end Adeu.Doc
+
+namespace Adeu.Doc
+open Adeu Adeu.Markup
+
+/-- the same for a commented pure deletion … -/
+theorem commented_deletion_rendered (cm : CMap) (p : Para) (pre post : List Node) (cid : Str) (rev : Rev) (r : Run) (d : CData)
+    (hn : p.nodes = pre ++ ([.cs cid, .del rev [r], .ce cid, .run (crefRun cid)] ++ post))
+    (hseg : (applyFormatting (runText r) (runMarkers r).1 (runMarkers r).2).isEmpty = false)
+    (hd : cmGet cm cid = some d) :
+    ∃ states : List Snap, metaBlock cm states ∈ notesOf (rawSegs cm p) ∧
+      (∃ snap ∈ states, cid ∈ snap.comments ∧ rev.id ∈ snap.del.map (·.1)) ∧
+      ∃ l ∈ (states.foldl (metaStep cm) ([], [], [])).2.1, comHead cid <+: l := by
+  obtain ⟨snap, hs, hc, hi⟩ := comment_shown_with_deletion cm p pre post cid rev r hn hseg
+  obtain ⟨g, hg, hsg⟩ := mem_flatten_group hs
+  obtain ⟨l, hl, hp⟩ := metaBlock_lists_comment cm g snap hsg cid hc d hd
+  refine ⟨g, ?_, ⟨snap, hsg, hc, hi⟩, l, hl, hp⟩
+  rw [rawSegs_notes]
+  unfold blocksOf
+  rw [List.mem_filter]
+  refine ⟨List.mem_map.2 ⟨g, hg, rfl⟩, ?_⟩
+  have hne : metaBlock cm g ≠ [] := by
+    rw [metaBlock_chgLines]
+    apply joinWith_ne_nil _ _ l (List.mem_append_right _ hl)
+    intro e
+    rw [e] at hp
+    exact comHead_ne_nil cid (List.eq_nil_of_prefix_nil hp)
+  simpa using hne
+
+/-- … and for a commented replacement (the inserted half). -/
+theorem commented_replacement_rendered (cm : CMap) (p : Para) (pre post : List Node) (cid : Str) (rd ri : Rev) (dr r : Run) (d : CData)
+    (hn : p.nodes = pre ++ ([.cs cid, .del rd [dr], .ins ri [.run r], .ce cid, .run (crefRun cid)] ++ post))
+    (hst : (stAfter {} pre 0).hide = false) (hr : r.ch.all isT = true)
+    (hseg : (applyFormatting (runText r) (runMarkers r).1 (runMarkers r).2).isEmpty = false)
+    (hd : cmGet cm cid = some d) :
+    ∃ states : List Snap, metaBlock cm states ∈ notesOf (rawSegs cm p) ∧
+      (∃ snap ∈ states, cid ∈ snap.comments ∧ ri.id ∈ snap.ins.map (·.1)) ∧
+      ∃ l ∈ (states.foldl (metaStep cm) ([], [], [])).2.1, comHead cid <+: l := by
+  obtain ⟨snap, hs, hc, hi⟩ := comment_shown_with_replacement cm p pre post cid rd ri dr r hn hst hr hseg
+  obtain ⟨g, hg, hsg⟩ := mem_flatten_group hs
+  obtain ⟨l, hl, hp⟩ := metaBlock_lists_comment cm g snap hsg cid hc d hd
+  refine ⟨g, ?_, ⟨snap, hsg, hc, hi⟩, l, hl, hp⟩
+  rw [rawSegs_notes]
+  unfold blocksOf
+  rw [List.mem_filter]
+  refine ⟨List.mem_map.2 ⟨g, hg, rfl⟩, ?_⟩
+  have hne : metaBlock cm g ≠ [] := by
+    rw [metaBlock_chgLines]
+    apply joinWith_ne_nil _ _ l (List.mem_append_right _ hl)
+    intro e
+    rw [e] at hp
+    exact comHead_ne_nil cid (List.eq_nil_of_prefix_nil hp)
+  simpa using hne
+
+end Adeu.Doc
